@@ -226,8 +226,10 @@ func c11Run(r *runCtx, id string, f []string) {
 	words := []string{"a", "b", "c", "d", "e", "f"}
 	for i := 0; i < nLines; i++ {
 		l := fmt.Sprintf("%s %d", words[rg.intn(len(words))], rg.intn(6))
-		lines <- logline.New(bctx, "log", l)
+		// counted before it is handed over: the line may have been processed, and scraped, before
+		// the send returns
 		atomic.AddInt64(&sent, 1)
+		lines <- logline.New(bctx, "log", l)
 	}
 	close(stop)
 	bg.Wait()
